@@ -213,6 +213,31 @@ func vChooseCorpusCase(r *vx.Run, docs []vDoc, families []string) vCase {
 			}
 		}
 		return vCase{fmt.Sprintf("periodic:%s:%s every %d phase %d", d.Key, vEditNames[kind], p, ph), t.bytes(), d.Key}
+	case "scatter":
+		// dense irregular noise: positions from a fixed low-discrepancy sequence (golden-ratio
+		// rotation), density 8..20%, mixed edit kinds; deterministic, enumerated by (doc, density, salt)
+		d := docs[r.Choose(len(docs), "doc")]
+		dens := []int{8, 12, 15, 18, 20}[r.Choose(5, "density")]
+		salt := r.Choose(4, "salt")
+		t := vParse(d.Bytes)
+		n := t.nwords()
+		k := n * dens / 100
+		pos := map[int]int{}
+		x := 0.1 + 0.2*float64(salt)
+		for i := 0; i < k; i++ {
+			x += 0.6180339887498949
+			x -= float64(int(x))
+			pos[int(x*float64(n))] = (i + salt) % vNumEditKinds
+		}
+		var ps []int
+		for p := range pos {
+			ps = append(ps, p)
+		}
+		sort.Sort(sort.Reverse(sort.IntSlice(ps)))
+		for _, p := range ps {
+			t.apply(pos[p], p, p)
+		}
+		return vCase{fmt.Sprintf("scatter:%s:%d%%:salt%d", d.Key, dens, salt), t.bytes(), d.Key}
 	case "truncate":
 		d := docs[r.Choose(len(docs), "doc")]
 		pct := []int{60, 70, 80, 90}[r.Choose(4, "pct")]
